@@ -207,3 +207,20 @@ Proof.
   intros s t q R Q Hn. destruct (e3_answer s t q Q Hn (fun _ => e3_fresh_uid s R)) as (th & G & A).
   exists th. split; [exact G|]. rewrite A. intros E. inversion E as [E']. exact (answer_not_lock_cancelled _ _ _ E').
 Qed.
+
+(* ---- store read failures: the sequential driver never fails a read ([drive] uses [resume] / [persist_ok] only) ---- *)
+Lemma answer_not_read_failed : forall log ltx q,
+  answer log ltx q <> RErr EStoreRead /\ answer log ltx q <> RErr ECompilationFailed.
+Proof.
+  intros log ltx q. unfold answer, answer_run, answer_exec.
+  repeat match goal with |- context [match ?x with _ => _ end] => destruct x end; split; discriminate.
+Qed.
+
+Theorem e3_C14_never_read_failed : forall s t q, reachable s -> quiescent s -> get_thread (threads s) t = None ->
+  exists th, get_thread (threads (submit s t q)) t = Some th /\
+             t_resp th <> Some (RErr EStoreRead) /\ t_resp th <> Some (RErr ECompilationFailed).
+Proof.
+  intros s t q R Q Hn. destruct (e3_answer s t q Q Hn (fun _ => e3_fresh_uid s R)) as (th & G & A).
+  exists th. split; [exact G|]. rewrite A. destruct (answer_not_read_failed (persisted s) (v_lasttx s) q) as [N1 N2].
+  split; intros E; inversion E as [E']; [exact (N1 E')|exact (N2 E')].
+Qed.
